@@ -16,7 +16,7 @@ func init() {
 		Explanation: "Decides that no store operation of one consumer can address another consumer's state: every provider key constructor taking a consumer id either ends with the raw id (exact-match spaces) or delimits it with an 8-byte length (so id 1 is never a byte prefix of id 10); " +
 			"every prefix iteration over per-consumer state uses exactly prefix·len(id)·id, or is a whole-space scan that recovers the id by parsing the key; every keeper function that has a consumer id in scope passes that same id to every per-consumer key constructor and keeper call it makes (no constants, no foreign ids); " +
 			"drivers without an id parameter use one id source per iteration/message; reverse indexes (client<->consumer, channel<->consumer) are written and deleted in pairs, and a client is bound to a consumer only when fresh or not bound to another consumer; shared time-queue slots are modified only for the given id; " +
-			"the launch and removal loops run each consumer in its own cached context.",
+			"the launch and removal loops run each consumer in its own cached context; every keeper function touching a key space directly belongs to that key space's accessor family, key-constructor arguments agree by name with the caller's parameters, and setters store their value parameter under a key built from their key parameters.",
 		NotDecided: []string{"byte-for-byte equality of the other consumer's state after an operation (implied for the module's own store by the rules above; bank/distribution/staking state is outside the module)", "cross-consumer effects through provider-wide validator state (jailing), which the property allows"},
 		Run:        runC13,
 	})
